@@ -568,6 +568,9 @@ class Sym:
         for i, s in enumerate(shape):
             if s == -1:
                 shape[i] = cur[i]
+        if int(np.prod(shape)) == self.a.size:
+            # nothing is repeated: torch returns an ordinary (writable) view of the same storage
+            return Sym(self.a.reshape(tuple(shape)))
         return Sym(np.broadcast_to(self.a, tuple(shape)))
 
     def expand_as(self, other):
@@ -610,6 +613,16 @@ class Sym:
 
     def unbind(self, dim=0):
         return unbind(self, dim)
+
+    def addcmul(self, t1, t2, value=1):
+        return self + (lift(t1) * lift(t2)) * value
+
+    def addcmul_(self, t1, t2, value=1):
+        self[...] = self + (lift(t1) * lift(t2)) * value  # written through the view, like torch's in-place op
+        return self
+
+    def addcdiv(self, t1, t2, value=1):
+        return self + (lift(t1) / lift(t2)) * value
 
     # ---- arithmetic ------------------------------------------------------------------------------
     def _bin(self, o, f):
